@@ -7,7 +7,7 @@
      next_set maxv scan                          scan = registered validators with stake > 0 in index order *)
 From Coq Require Import ZArith List Bool Lia Sorted.
 Import ListNotations.
-Require Import RV.Model.C42_Staking RV.Proof.C42_Staking RV.Proof.C42_System.
+Require Import RV.Model.C42_Staking RV.Proof.C42_Staking RV.Proof.C42_System RV.Model.C42_Index RV.Proof.C42_Index.
 Open Scope Z_scope.
 
 (* staking x and immediately unstaking the minted units never claims more than x — for every
@@ -123,6 +123,48 @@ Theorem C42_claim_always_payable : forall amt ce cur v,
   vinv v -> In (amt, ce) (sclaims v) -> ce <= cur -> v_claim amt ce cur v <> None.
 Proof. exact v_claim_succeeds. Qed.
 
+(* ---- second layer: sorted index, registration, fee-factor changes (Model/C42_Index.v) ----------
+   [istep] wraps [sstep] with what validator.rs keeps besides the vaults: the validator's sorted_key,
+   the consensus manager's index (Create / UpdateStake with its unwrap / Remove), register /
+   unregister, update_fee (pending request, promotion, effective epoch, EpochMathOverflow) and the
+   effective fee factor of apply_emission.  [iinv]: for every validator, sorted_key = the key its
+   registration and current stake prescribe, and the index holds its entry (that prefix, current
+   stake) iff that key exists. *)
+
+(* INDEX MAINTENANCE: the invariant is kept by every operation and hence over every operation
+   sequence; and UpdateStake's `.unwrap()` never fails *)
+Theorem C42_index_maintained : forall ops s, iinv s -> iinv (irun s ops).
+Proof. exact irun_iinv. Qed.
+Theorem C42_index_update_never_panics : forall s o, iinv s -> istep s o <> IPanic.
+Proof. exact istep_no_panic. Qed.
+(* what the invariant says about the index content: validator i has an entry iff it is registered
+   with non-zero stake, and then the entry carries its current stake under the prefix of that stake —
+   so the scan that C42_active_set_shape starts from lists exactly the registered validators with
+   positive stake *)
+Theorem C42_index_exact : forall s i v,
+  iinv s -> nth_error (svals (ibase s)) i = Some v ->
+  match nth_error (iindex s) i with
+  | Some (Some (p, st)) => sreg v = true /\ sv v <> 0 /\ st = sv v /\ sort_prefix (sv v) = Some p
+  | Some None => sreg v = false \/ sv v = 0
+  | None => False
+  end.
+Proof. exact index_exact. Qed.
+(* conservation holds for the two-layer machine as well *)
+Theorem C42_conservation_with_index : forall ops s,
+  sinv (ibase s) -> sinv (ibase (irun s ops)) /\ balance (ibase (irun s ops)) = balance (ibase s).
+Proof. exact irun_conservation. Qed.
+(* update_fee as written: the value must be in [0, 1]; a pending request that is already effective
+   is promoted into the stored factor; an increase becomes effective [delay] epochs later, anything
+   else at the next epoch; the epoch arithmetic is checked (EpochMathOverflow) *)
+Theorem C42_update_fee_effective_epoch : forall s i ff delay s',
+  iinv s -> istep s (IUpdateFee i ff delay) = IOk s' ->
+  0 <= ff <= DD /\
+  exists stored ee,
+    getk (ireq s') i = Some (ee, ff) /\ vff (ibase s') i = stored /\
+    stored = effective_ff (vff (ibase s) i) (getk (ireq s) i) (sepoch (ibase s)) /\
+    (if stored <? ff then ee = sepoch (ibase s) + delay else ee = sepoch (ibase s) + 1) /\ ee <= U64_MAX.
+Proof. exact update_fee_effective_epoch. Qed.
+
 (* Outside the statement, recorded here because it is a loss for a staker (not a gain, so no
    clause of C42 is contradicted: units minted = x·U/V = 0 is "in proportion", nothing is created):
    when every stake unit of a validator has been unstaked while V/U was not representable with 18
@@ -170,6 +212,27 @@ Proof.
   - vm_compute. repeat split; reflexivity.
 Qed.
 
+(* non-vacuity of the index theorems: a state satisfying [iinv] with an indexed and an unindexed
+   validator, on which unregister removes the entry and a stake moves an entry to another prefix *)
+Example C42_index_nonvacuous :
+  let D := 10 ^ 18 in
+  let v0 := {| sv := 150000 * D; su := 150000 * D; spend := 0; slock := 0; sff := D; sreg := true; sclaims := [] |} in
+  let v1 := {| sv := 10 * D; su := 10 * D; spend := 0; slock := 0; sff := D; sreg := false; sclaims := [] |} in
+  let b := {| svals := [v0; v1]; srv := 0; sprop := []; sepoch := 5; g_in := 0; g_out := 0; g_mint := 0 |} in
+  let s := {| ibase := b; ikeys := [Some 65534; None]; iindex := [Some (65534, 150000 * D); None]; ireq := [None; None] |} in
+  iinv s /\
+  iindex (irun s [IStake 0 (60000 * D); IRegister 1 true]) = [Some (65533, 210000 * D); Some (65535, 10 * D)] /\
+  iindex (irun s [IRegister 0 false]) = [None; None].
+Proof.
+  cbv zeta. split.
+  - unfold iinv. cbn [ibase ikeys iindex ireq svals length]. repeat split; auto.
+    intros [|[|i]]; unfold cons_at; cbn [nth_error svals sreg sv].
+    + exists (Some 65534). repeat split; vm_compute; reflexivity.
+    + exists None. repeat split; vm_compute; reflexivity.
+    + destruct i; exact I.
+  - split; vm_compute; reflexivity.
+Qed.
+
 Print Assumptions C42_stake_unstake_no_gain.
 Print Assumptions C42_units_proportional.
 Print Assumptions C42_redemption_proportional.
@@ -187,3 +250,9 @@ Print Assumptions C42_claim_pays_recorded_amount.
 Print Assumptions C42_claim_always_payable.
 Print Assumptions C42_stake_into_dust_with_zero_supply_mints_nothing.
 Print Assumptions C42_history_nonvacuous.
+Print Assumptions C42_index_maintained.
+Print Assumptions C42_index_update_never_panics.
+Print Assumptions C42_index_exact.
+Print Assumptions C42_conservation_with_index.
+Print Assumptions C42_update_fee_effective_epoch.
+Print Assumptions C42_index_nonvacuous.
